@@ -378,6 +378,19 @@ for t in range(N):
                 pickle.loads(pickle.dumps(summ))
             except Exception as e:
                 leg.violation(key, f"summary does not pickle: {e!r}")
+            # process-wide settings of the traceback machinery (sys.tracebacklimit) are none of the summary's business: it projects
+            # the Stack, whatever limit the host program runs with
+            if t % 7 == 0:
+                for lim in (0, 1):
+                    sys.tracebacklimit = lim
+                    try:
+                        limited = [(x.filename, x.lineno, x.name, x.locals is not None)
+                                   for x in s.as_stdlib_summary(show_contexts=sc, show_hidden_frames=sh, capture_locals=cl)]
+                        flat_l = s.format_flat(show_contexts=sc)
+                    finally:
+                        del sys.tracebacklimit
+                    if limited != exp or (s.error is None and flat_l != s.format_flat(show_contexts=sc)):   # (an error block is the traceback module's own rendering)
+                        leg.violation(key, f"with sys.tracebacklimit = {lim} the summary / flat format changes ({len(limited)} entries, {len(exp)} expected)")
             flat = s.format_flat(show_contexts=sc)
             expf = [exp_header(s)]
             if s.frames: expf += s.as_stdlib_summary(show_contexts=sc).format()
